@@ -13,7 +13,11 @@ From Coq Require Import List NArith Bool Arith.
 From J5V.model Require Import Conc.
 Import ListNotations.
 
-Inductive loc := LMap | LReg | LCell (c : cellid).
+Inductive loc :=
+| LPkgs                 (* sc.packages: package name -> *Package *)
+| LSchemas (p : N)      (* the Schemas map of package p *)
+| LReg                  (* sc.registered *)
+| LCell (c : cellid).   (* the To field of a RefSchema *)
 
 Inductive event :=
 | EAcq (t : tid)                 (* sc.mu.Lock() returns *)
@@ -24,7 +28,8 @@ Inductive event :=
 
 Definition loc_eqb (a b : loc) : bool :=
   match a, b with
-  | LMap, LMap => true
+  | LPkgs, LPkgs => true
+  | LSchemas p, LSchemas q => N.eqb p q
   | LReg, LReg => true
   | LCell c, LCell d => Nat.eqb c d
   | _, _ => false
@@ -55,16 +60,21 @@ Definition adv_events (t : tid) (stk : list frame) : list event :=
   | [] => []
   end.
 
-Definition lstep_events (g : graph) (n : name) (t : tid) (sh : shared) (p : pc) : list event :=
+(* referencePackage(p): reads sc.packages, and writes it when the package is new — the machine
+   does not track which packages exist, so the write is always listed (more conflicts to
+   exclude, never fewer) *)
+Definition refpkg_events (t : tid) : list event := [ERd t LPkgs; EWr t LPkgs].
+
+Definition lstep_events (pk : name -> N) (g : graph) (n : name) (t : tid) (sh : shared) (p : pc) : list event :=
   match p with
   | PLookup =>
-      ERd t LMap :: match lookup (cmap sh) n with Some c => [ERd t (LCell c)] | None => [] end
+      ERd t (LSchemas (pk n)) :: match lookup (cmap sh) n with Some c => [ERd t (LCell c)] | None => [] end
   | PInsert =>
-      [EWr t LMap; EWr t LReg] ++ adv_events t [mkFrame (length (heap sh)) (refs g n) []]
+      [EWr t (LSchemas (pk n)); EWr t LReg] ++ adv_events t [mkFrame (length (heap sh)) (refs g n) []]
   | PRefLookup (f :: rest) =>
       match f_todo f with
       | m :: todo' =>
-          ERd t LMap ::
+          refpkg_events t ++ ERd t (LSchemas (pk m)) ::
           match lookup (cmap sh) m with
           | Some c => adv_events t (mkFrame (f_cell f) todo' (c :: f_done f) :: rest)
           | None => []
@@ -74,7 +84,7 @@ Definition lstep_events (g : graph) (n : name) (t : tid) (sh : shared) (p : pc) 
   | PRefInsert (f :: rest) =>
       match f_todo f with
       | m :: todo' =>
-          [EWr t LMap; EWr t LReg] ++
+          [EWr t (LSchemas (pk m)); EWr t LReg] ++
           adv_events t (mkFrame (length (heap sh)) (refs g m) [] ::
                         mkFrame (f_cell f) todo' (length (heap sh) :: f_done f) :: rest)
       | [] => []
@@ -84,9 +94,13 @@ Definition lstep_events (g : graph) (n : name) (t : tid) (sh : shared) (p : pc) 
   | _ => []
   end.
 
-(* the end of Schema: a failed call reads registered and deletes from the map; registered = nil *)
-Definition fin_events (t : tid) (res : result) : list event :=
-  match res with RErr => [ERd t LReg; EWr t LMap] | RNil | ROk _ => [] end ++ [EWr t LReg].
+(* the end of Schema: a failed call reads registered and deletes every registered ref from the
+   Schemas map of its package; registered = nil *)
+Definition fin_events (pk : name -> N) (t : tid) (res : result) (sh : shared) : list event :=
+  match res with
+  | RErr | RUnlinked => ERd t LReg :: map (fun n => EWr t (LSchemas (pk n))) (reg sh)
+  | RNil | ROk _ => []
+  end ++ [EWr t LReg].
 
 (* the cells whose To field the caller reads when it walks the schema to depth k *)
 Fixpoint obs_cells (k : nat) (h : list cell) (c : cellid) : list cellid :=
@@ -99,26 +113,16 @@ Fixpoint obs_cells (k : nat) (h : list cell) (c : cellid) : list cellid :=
            end
   end.
 
-(* the cell a returning call hands to its caller *)
-Definition result_cell (n : name) (sh : shared) (p : pc) : option cellid :=
-  match p with
-  | PLookup => lookup (cmap sh) n
-  | PReturn c => Some c
-  | _ => None
-  end.
-
 Definition obs_events (k : nat) (t : tid) (res : result) (sh : shared) (rc : option cellid) : list event :=
   match res, rc with
   | ROk _, Some c => map (EObs t) (obs_cells k (heap sh) c)
   | _, _ => []
   end.
 
-(* after Lock(): registered = registered[:0], then referencePackage reads sc.packages and
-   writes it when the package is new (the model's map is flattened: over-approximated by a
-   write of LMap) — up to the cache.lookup hook *)
-Definition enter_events (t : tid) : list event := [EWr t LReg; ERd t LMap; EWr t LMap].
+(* after Lock(): registered = registered[:0], then referencePackage of the root's package — up to the cache.lookup hook *)
+Definition enter_events (t : tid) : list event := EWr t LReg :: refpkg_events t.
 
-Definition gstep_events (d : disc) (k : nat) (g : graph) (t : tid) (st : state) : list event :=
+Definition gstep_events (d : disc) (pk : name -> N) (k : nat) (g : graph) (t : tid) (st : state) : list event :=
   match nth_error (s_thr st) t with
   | None => []
   | Some th =>
@@ -126,7 +130,11 @@ Definition gstep_events (d : disc) (k : nat) (g : graph) (t : tid) (st : state) 
       | [] => []
       | n :: _ =>
           match t_pc th with
-          | PWait => []
+          | PWait =>
+              match d, s_lock st with
+              | Guarded, None => EAcq t :: enter_events t     (* blocked in Lock(), finds the lock free *)
+              | _, _ => []
+              end
           | PEnter =>
               match d with
               | Unguarded => enter_events t
@@ -134,29 +142,27 @@ Definition gstep_events (d : disc) (k : nat) (g : graph) (t : tid) (st : state) 
               end
           | p =>
               let (sh', o) := lstep k g n (s_sh st) p in
-              lstep_events g n t (s_sh st) p ++
+              lstep_events pk g n t (s_sh st) p ++
               match o with
               | inl _ => []
               | inr res =>
-                  fin_events t res ++
+                  fin_events pk t res sh' ++
                   match d with
                   | Unguarded => obs_events k t res sh' (result_cell n (s_sh st) p)
-                  | Guarded =>
-                      ERel t :: obs_events k t res sh' (result_cell n (s_sh st) p) ++
-                      match s_waitq st with w :: _ => EAcq w :: enter_events w | [] => [] end
+                  | Guarded => ERel t :: obs_events k t res sh' (result_cell n (s_sh st) p)
                   end
               end
           end
       end
   end.
 
-Fixpoint events_from (d : disc) (k : nat) (g : graph) (sched : list tid) (st : state) : list event :=
+Fixpoint events_from (d : disc) (pk : name -> N) (k : nat) (g : graph) (sched : list tid) (st : state) : list event :=
   match sched with
   | [] => []
-  | t :: r => gstep_events d k g t st ++ events_from d k g r (gstep d k g t st)
+  | t :: r => gstep_events d pk k g t st ++ events_from d pk k g r (gstep d k g t st)
   end.
 
-Definition events d k g calls sched : list event := events_from d k g sched (init calls).
+Definition events d pk k g calls sched : list event := events_from d pk k g sched (init calls).
 
 (* ---- data-race freedom -------------------------------------------------------------- *)
 Definition conflict (e1 e2 : event) : Prop :=
@@ -177,6 +183,18 @@ Definition race_free (tr : list event) : Prop :=
    delayed arbitrarily after the return still sees what the trace shows it to see *)
 Definition write_once (tr : list event) : Prop :=
   forall i j t1 t2 c, nth_error tr i = Some (EWr t1 (LCell c)) -> nth_error tr j = Some (EWr t2 (LCell c)) -> i = j.
+
+(* what makes the Go runtime abort with "fatal error: concurrent map writes" / "concurrent map
+   read and map write": two accesses to one of the maps (sc.packages, or the Schemas map of
+   a package), by different goroutines, at least one of them a write, not ordered by
+   happens-before *)
+Definition is_map_loc (l : loc) : bool :=
+  match l with LPkgs | LSchemas _ => true | _ => false end.
+
+Definition concurrent_map_access (tr : list event) : Prop :=
+  exists i j e1 e2 l w1 w2, i < j /\ nth_error tr i = Some e1 /\ nth_error tr j = Some e2 /\
+    ev_tid e1 <> ev_tid e2 /\ ev_access e1 = Some (l, w1) /\ ev_access e2 = Some (l, w2) /\
+    is_map_loc l = true /\ (w1 = true \/ w2 = true) /\ ~ ordered tr i j e1 e2.
 
 (* ---- a decidable check used for the refutation ---------------------------------------- *)
 Definition conflict_b (e1 e2 : event) : bool :=
